@@ -282,7 +282,7 @@ Sess1LastSpec == SessInit /\ [][Sess1LastNext]_vars
 (* C11 first packets: every way of being refused, followed by packets on the refused connection;
    witness c2 subscribed to '#', afterwards a probe of the retained store                  *)
 ANames == {<<"a">>}
-RefuseKinds == {"level", "name", "idlong", "idbad", "idempty0", "reserved", "willflags", "notconnect-ping",
+RefuseKinds == {"level", "name", "idlong", "idbad", "iddel", "idhigh", "idctl1f", "idempty0", "reserved", "willflags", "notconnect-ping",
                 "notconnect-sub", "notconnect-pub", "truncated", "truncated2", "garbage", "badflags",
                 "v3-truncated10", "v3-truncated11", "remlen5"}
 AdmitInit == Witness(ANames, c2, k2, {<<"#">>}, 1)
